@@ -143,6 +143,26 @@ def gen_case(seed, tier='quick', index=1):
             # issued from another (sequentially run) caller thread
             e['thread'] = True
         ops.append(e)
+    rfs = [a for a in world['ranges_used'] if any(
+        world['level'].get(m, 0) == 0 and m in world['cells']
+        for m in world['deps'].get(a, ()))]
+    if rfs and rng.random() < 0.15:
+        # an evaluation cut short after it has gathered a range, then a
+        # member of that range changes, then the range is needed again
+        f = rng.choice(rfs)
+        mem = rng.choice([m for m in world['deps'][f]
+                          if world['level'].get(m, 0) == 0
+                          and m in world['cells']])
+        users = [a for a in formulas if f in world['deps'].get(a, ())] + [f]
+        pre = [{'op': 'eval', 'copy': 0, 'ev': 0, 'target': rng.choice(users),
+                'fault': {'kind': 'interrupt',
+                          'frac': round(rng.uniform(0.6, 1.0), 3)}},
+               {'op': 'set', 'copy': 0, 'via': rng.choice(
+                   ['model', 'evaluator']), 'ev': 0, 'target': mem,
+                'value': worlds.enc(c04.new_value(rng))},
+               {'op': 'eval', 'copy': 0, 'ev': 0, 'target': f},
+               {'op': 'eval', 'copy': 0, 'ev': 0, 'target': rng.choice(users)}]
+        ops = pre + ops
     if faulty:
         evals = [i for i, o in enumerate(ops) if o['op'] == 'eval']
         for _ in range(rng.choice([1, 1, 2, 3])):
